@@ -1107,6 +1107,9 @@ func Script(asserts []*Term, prelude string, extraDecls func(used map[string]boo
 		if refcnt[t] < 2 && termSize(t, 40) < 40 {
 			continue
 		}
+		if t == NilSlice {
+			continue // stays a literal value: cvc5 requires a value under (as const ...)
+		}
 		var b strings.Builder
 		// print with existing names, but not itself
 		printTermTop(&b, t, names)
